@@ -1,5 +1,6 @@
 import Proofs.C07Uniq
 import Proofs.C07Examples
+import Proofs.C07Exec
 /-!
 C07 — committors and mean first-passage times satisfy their first-step equations.
 
@@ -83,23 +84,18 @@ theorem committor_bounds (n : Nat) (T : Mat) (sources sinks : List Nat) (B : Mat
 example : (∀ i, i < 4 → ∀ j, j < 4 → 0 ≤ T4 i j) ∧ (∀ i, i < 4 → sumTo 4 (fun j => T4 i j) = 1) ∧
     (∀ i, i < 4 → Reach 4 T4 ([0] ++ [2, 3]) i) := ⟨by decide +kernel, by decide +kernel, reach_T4⟩
 
-/-- The same two facts for what the driver's `committors` returns (certified exact solver). -/
+/-- The same facts for what the driver's `committors` returns (certified exact solver). -/
 theorem committor_exec (n : Nat) (T : Mat) (sources sinks : List Nat) (q : Vec)
     (hdisj : ∀ s ∈ sources, s ∉ sinks) (hnd : sinks.Nodup)
     (hq : committors n T sources sinks = .ok q) :
     (∀ s ∈ sources, q s = 0) ∧ (∀ s ∈ sinks, q s = 1) ∧
     (∀ i, i < n → i ∉ sources → i ∉ sinks → q i = sumTo n (fun j => T i j * q j)) := by
-  unfold committors at hq
-  split at hq
-  · rename_i hidx
-    simp only [Bool.and_eq_true, idxOk, List.all_eq_true, decide_eq_true_eq] at hidx
-    split at hq
-    · exact absurd hq (by simp)
-    · rename_i B hsol
-      have : committorsFrom B sinks = q := by simpa using hq
-      subst this
-      exact committor_first_step n T sources sinks B hidx.1 hidx.2 hdisj hnd (solve_sound hsol)
-  · exact absurd hq (by simp)
+  simp only [sumTo_eq_sum]
+  exact committors_ok_first_step hdisj hnd hq
+
+example : okVal (committors 4 T4 [0] [2, 3]) 1 = some (2/3) ∧
+    okVal (committors 4 T4 [0] [2, 3]) 3 = some 1 ∧
+    okVal (committors 4 T4 [0] [7]) 0 = none := by decide +kernel
 
 /-! ### mean first-passage times to a sink set -/
 
@@ -136,6 +132,9 @@ theorem mfpt_sinks_exec (n : Nat) (T : Mat) (sinks : List Nat) (lag : Rat) (m : 
         exact solve_sound hsol i hi 0 hk
       exact mfpt_sinks_first_step n T sinks _ lag hidx ht
   · exact absurd hm (by simp)
+
+example : okVal (mfptsSinks 3 T3 [2] (5/2)) 0 = some 20 ∧ okVal (mfptsSinks 3 T3 [2] (5/2)) 2 = some 0 := by
+  decide +kernel
 
 /-- Both tables scale linearly with the lag time: the lag multiplies the solver output, which
 does not depend on it (source: `lagtime * np.linalg.solve(…)`, `lagtime * (…) / W`). -/
@@ -184,6 +183,43 @@ theorem mfpt_all_first_step (n : Nat) (T : Mat) (π : Vec) (Z : Mat) (lag : Rat)
 example : (∀ i, i < 3 → sumTo 3 (fun j => T3 i j) = 1) ∧ Stationary 3 T3 π3 ∧
     FundInv 3 T3 π3 Z3 ∧ π3 2 ≠ 0 ∧ mfptAll 1 Z3 π3 0 2 = 8 := by
   unfold Stationary FundInv IsSolution; decide +kernel
+
+/-- The exact stand-in for `eq_probs` only ever returns a stationary distribution. -/
+theorem eq_probs_exec (n : Nat) (T : Mat) (π : Vec) (h : eqProbs n T = .ok π) :
+    Stationary n T π := by
+  unfold eqProbs at h
+  simp only at h
+  split at h
+  · exact absurd h (by simp)
+  · split at h
+    · rename_i x _ hok
+      have : (fun i => x i 0) = π := by simpa using h
+      subst this
+      simp only [stationaryOk, Bool.and_eq_true, List.all_eq_true, List.mem_range,
+        decide_eq_true_eq] at hok
+      exact hok
+    · exact absurd h (by simp)
+
+/-- What the driver's all-pairs table satisfies (certified exact inverse plugged in). -/
+theorem mfpt_all_exec (n : Nat) (T : Mat) (π : Vec) (lag : Rat) (m : Mat)
+    (hrow : ∀ i, i < n → sumTo n (fun j => T i j) = 1) (hπ : Stationary n T π)
+    (hm : mfptsAll n T π lag = .ok m) :
+    ∀ j, j < n → m j j = 0 ∧ ∀ i, i < n → i ≠ j → m i j = lag + sumTo n (fun k => T i k * m k j) := by
+  unfold mfptsAll at hm
+  split at hm
+  · rename_i hnz
+    simp only [List.all_eq_true, List.mem_range, decide_eq_true_eq] at hnz
+    split at hm
+    · exact absurd hm (by simp)
+    · rename_i Z hsol
+      have : mfptAll lag Z π = m := by simpa using hm
+      subst this
+      intro j hj
+      exact mfpt_all_first_step n T π Z lag hrow hπ (solve_sound hsol) j hj (hnz j hj)
+  · exact absurd hm (by simp)
+
+example : okVal (eqProbs 3 T3) 1 = some (1/2) ∧ okEntry (mfptsAll 3 T3 π3 1) 0 2 = some 8 ∧
+    okEntry (mfptsAll 3 T3 π3 10) 2 0 = some 80 := by decide +kernel
 
 /-- Column `j` of the all-pairs table equals the single-sink computation for the sink `{j}`
 whenever the single-sink system determines its solution uniquely. -/
